@@ -565,10 +565,45 @@ def r4_constants(program, folder, rep):
               construct="flags %r %r" % (fr, fn))
 
 
+def r1_forwarding(program, rep):
+    """SCPPacket.__init__ hands its SDP-level arguments to SDPPacket.__init__
+    each under the parameter of the same name."""
+    sub = program.get(MOD + ":SCPPacket.__init__")
+    sup = program.get(MOD + ":SDPPacket.__init__")
+    cs = [c for c in ast.walk(sub) if isinstance(c, ast.Call) and
+          isinstance(c.func, ast.Attribute) and c.func.attr == "__init__"]
+    if len(cs) != 1:
+        raise AnalysisError("SCPPacket.__init__: the call of the base "
+                            "constructor")
+    T = Terms(sub)
+    n = T.cfg.node_containing(cs[0])
+    names = [a.arg for a in sup.args.args][1:]
+    own = set(a.arg for a in sub.args.args)
+    bound = {}
+    for i, a in enumerate(cs[0].args):
+        if i < len(names):
+            bound[names[i]] = T.term(a, n)
+    for k in cs[0].keywords:
+        if k.arg:
+            bound[k.arg] = T.term(k.value, n)
+    bad = sorted(k for k, v in bound.items()
+                 if v[0] == "param" and v[1] in names and v[1] != k)
+    missing = sorted(k for k in names if k in own and k not in bound)
+    rep.check(not bad and not missing, "C15-R1", qual(sub),
+              "every SDP field given to SCPPacket is passed to the base "
+              "constructor under its own name", construct="base constructor "
+              "arguments", node=cs[0],
+              fail="SCPPacket.__init__ passes %s to SDPPacket.__init__: the "
+                   "fields are exchanged in every SCP packet built through "
+                   "the constructor" % ", ".join(
+                       "%s as %s" % (bound[k][1], k) for k in bad))
+
+
 def check(program, rep):
     program.module(MOD)
     folder = Folder(program)
     res = rep.guard("C15-R1", r1_encoder, program, folder, rep)
+    rep.guard("C15-R1", r1_forwarding, program, rep)
     if res:
         rep.guard("C15-R2", r2_decoder, program, folder, rep, *res)
     rep.guard("C15-R3", r3_scp, program, folder, rep)
